@@ -14,11 +14,11 @@ DRIVER = cc.DRIVER
 COQ_FILES = ["FA/Proofs/CaptureProofs.v", "FA/Proofs/CaptureSem.v", "FA/Properties/C05.v"]
 
 LEVEL = ("Coq theorems over the executable model of _rewrite_captured_vars.visit_Name/visit_Call + _resolve_called_lambdas "
-         "(Model/Capture.v, mirroring the code with fixes F06, F07, FC2 applied): inline_leaves_by_name (a call of a captured "
+         "(Model/Capture.v, mirroring the code with fixes F06, F07, FC2, FC4, FC5, FC6 applied): inline_leaves_by_name (a call of a captured "
          "callable whose source is not a single-return function stays `Call (Name h) ...` with rewritten arguments), "
          "inline_sem (on the first-order fragment of Base/Eval.v, resolving called lambdas preserves the value Python's "
-         "call semantics gives - positional binding, call by value - under the stated hygiene hypothesis: no free name of "
-         "a substituted argument is bound by a lambda/comprehension that stays inside the inlined body), Examples for a "
+         "call semantics gives - positional binding, call by value - on a fragment where binders may stay inside an inlined body only when "
+         "the call's arguments are constants; the general case is decided by FC4's bail-out and covered by correspondence + oracle), Examples for a "
          "parameter-only body, nested helpers and keyword calls.  Model tied to the code by exact comparison on generated "
          "Python programs; the oracle compares the recorded lambda's value with the real Python callable's.")
 TRUSTED = c04_trusted = ["Coq 8.16.1 kernel (coqc); no axioms (Print Assumptions: closed under the global context)",
@@ -27,7 +27,7 @@ TRUSTED = c04_trusted = ["Coq 8.16.1 kernel (coqc); no axioms (Print Assumptions
                          "inputs of the model, validated by correspondence only: inspect.getclosurevars / f.__globals__ snapshot; "
                          "whether the source of a captured callable is recovered as a Lambda (source recovery, C03)"]
 ASSUME = ["the helper's Lambda (rewrite_func_as_lambda of its source) is an input of the model, built by the generator from the helper's own text",
-          "inline_sem: first-order fragment; hygiene hypothesis stated in the theorem (the remaining capture case is an open finding)",
+          "inline_sem: first-order fragment; fragment restriction stated in the theorem; no open findings",
           "lambdas/helpers with non-positional parameter kinds are outside the model (oracle only)"]
 RULE = ("generated Python programs: every single-return helper body of a typed grammar up to size 5 x parameter lists of length 1-3 "
         "(names overlapping the lambda's) x call shapes (positional, keyword, reordered, mixed) x arguments (incl. names bound inside "
@@ -187,6 +187,11 @@ def corpus():
     out.append(_keep(mk("lambda e: sum(e.jets.Select(lambda mg: hg(mg.pt)))", [("mg", ["q"], "q * 2", "multi"), ("hg", ["a"], "mg(a) + 1", "def")], tags={"FC6"}, group="corpus")))
     out.append(_keep(mk("lambda e: sum([hg(mg.pt) for mg in e.jets]) + hg(e.a)", [("mg", ["q"], "q * 2", "multi"), ("hg", ["a"], "mg(a) + 1", "def")], tags={"FC6"}, group="corpus")))
     out.append(_keep(mk("lambda abs: h(abs.a)", [("h", ["a"], "abs(a) + 1", "def")], tags={"FC6"}, group="corpus")))
+    # FC4: an inner call that stays (its own argument clashes) keeps its parameter as a binder for the outer call
+    out.append(mk("lambda e: sum(e.jets.Select(lambda x: (lambda a: (lambda e: sum([e + a + x for x in [1, 2]]))(x.pt))(e.a)))", [], tags={"FC4"}, group="corpus"))
+    # FC4: a call that stays still has the arguments of enclosing inlined calls substituted into its body
+    out.append(mk("lambda e: (lambda k: (lambda a: sum(e.jets.Select(lambda e: a + k + e.pt)))(e.a))(5)", [], tags={"FC4"}, group="corpus"))
+    out.append(mk("lambda e: hk(5, e)", [("hk", ["k", "r"], "(lambda a: sum(r.jets.Select(lambda r: a + k + r.pt)))(r.a)", "def")], tags={"FC4"}, group="corpus"))
     # the former open findings (closed by FC4 and FC5)
     out.append(mk("lambda j: h(j)", [("h", ["a"], "sum(a.jets.Select(lambda j: j.pt + a.pt))", "def")], group="corpus"))
     out.append(mk("lambda e: h(e.a)", [("h", ["a"], "a + e", "def")], group="corpus", tags=()).__class__ and
